@@ -466,6 +466,32 @@ def run_det_case(c, timeout_s=120.0):
                     c.impl = "differ file:%s" % nm
                     return
             c.impl = "same rc=0 out=%d files=%d" % (len(whole[1]), len(whole[3]))
+        elif c.op == "detgz":
+            # detgz <stdin> <file flag> <argv...>: what a command writes to a file must not depend on the file being
+            # written compressed (.gz) or not, nor on where the other outputs go
+            flagname = c.args[1]
+            argv = [str(a) for a in c.args[2:]]
+            plain = exec_goalign(argv + [flagname, "out.txt"], stdin, {}, timeout_s)
+            gz = exec_goalign(argv + [flagname, "out.txt.gz"], stdin, {}, timeout_s)
+            if plain[0] != gz[0]:
+                c.impl = "differ exit-status plain=%s gz=%s" % (plain[0], gz[0])
+                return
+            if plain[0] != 0:
+                c.impl = "same rc=%s out=0 files=0" % plain[0]
+                return
+            import gzip as _gz
+            try:
+                unz = _gz.decompress(gz[3].get("out.txt.gz", b"")) if gz[3].get("out.txt.gz") else b""
+            except Exception:       # noqa
+                c.impl = "differ file:out.txt.gz is not a complete gzip stream (%d bytes)" % len(gz[3].get("out.txt.gz", b""))
+                return
+            if unz != plain[3].get("out.txt", b""):
+                c.impl = "differ file:out.txt (%d bytes) vs gunzip of out.txt.gz (%d bytes)" % (len(plain[3].get("out.txt", b"")), len(unz))
+                return
+            if plain[1] != gz[1]:
+                c.impl = "differ stdout"
+                return
+            c.impl = "same rc=0 out=%d files=1" % len(plain[3].get("out.txt", b""))
         elif c.op == "detchain":
             chain = c.args[1].split(",")
             r0 = exec_goalign(["reformat", chain[0]], stdin, {}, timeout_s)
@@ -639,7 +665,7 @@ def shrink_case(mod, binpath, case, still_bad, max_rounds=60, budget_s=45.0):
     if case.op == "detmulti":
         from driver import multigen
         shrinker = multigen.shrink
-    elif case.op == "cli_lib":
+    elif case.op in ("cli_lib", "detgz"):
         from driver import cligen
         shrinker = cligen.shrink
     elif hasattr(mod, "shrink"):
